@@ -148,6 +148,11 @@ Thm(ed, cs, e1) ==
     /\ e1.row >= 0
     /\ Lb!GhostMatches(e1.lb) /\ Lb!AtBoundary(e1.lb)
 
+HasWB(re) == \E i \in 1..Len(re) - 1 : re[i] = 92 /\ re[i + 1] \in {60, 62}
+RECURSIVE CmdWB(_)
+CmdWB(c) == \/ ("re" \in DOMAIN c /\ HasWB(c.re))
+            \/ ("cmds" \in DOMAIN c /\ \E i \in 1..Len(c.cmds) : CmdWB(c.cmds[i]))
+            \/ ("loc" \in DOMAIN c /\ \E i \in 1..Len(c.loc) : HasWB(c.loc[i].a.re))
 RegNames == {0, 97, 98} \cup 49..57
 RECURSIVE Script(_, _, _, _)
 Script(ed, sd, t, n) ==
@@ -161,7 +166,7 @@ Script(ed, sd, t, n) ==
              step == [typed |-> Typed(cs, e1), kinds |-> [i \in 1..Len(cs) |-> cs[i].k], exp |-> Proj(e1),
                       thm |-> IF Thm(ed, cs, e1) THEN 1 ELSE 0]
          IN IF same THEN <<step>> \o Script(e1, sd, t + 1, n)
-            ELSE <<step @@ [alt |-> Proj(e1c)]>>
+            ELSE <<step @@ [alt |-> Proj(e1c), wb |-> IF HasWB(e1.kwd) \/ HasWB(ed.kwd) \/ \E i \in 1..Len(cs) : CmdWB(cs[i]) THEN 1 ELSE 0]>>
 
 (* fixed scripts: replays of findings (known and fixed) that every run of the checks repeats *)
 A(k, n) == <<[a |-> [b |-> k, n |-> n, m |-> 0, re |-> <<>>, offs |-> <<>>], sep |-> ""]>>
@@ -198,7 +203,8 @@ Fixed(ed, lines, t) ==
              e1c == ExLine([ed EXCEPT !.code = TRUE], cs)
              step == [typed |-> Typed(cs, e1), kinds |-> [i \in 1..Len(cs) |-> cs[i].k], exp |-> Proj(e1),
                       thm |-> IF Thm(ed, cs, e1) THEN 1 ELSE 0]
-         IN IF Proj(e1c) = Proj(e1) THEN <<step>> \o Fixed(e1, lines, t + 1) ELSE <<step @@ [alt |-> Proj(e1c)]>>
+         IN IF Proj(e1c) = Proj(e1) THEN <<step>> \o Fixed(e1, lines, t + 1)
+            ELSE <<step @@ [alt |-> Proj(e1c), wb |-> IF HasWB(e1.kwd) \/ HasWB(ed.kwd) \/ \E i \in 1..Len(cs) : CmdWB(cs[i]) THEN 1 ELSE 0]>>
 
 Seed0 == EnvN("SEED0", 1)
 NScripts == EnvN("NSCRIPTS", 4)
